@@ -38,7 +38,7 @@ func termSyms(t Term) map[string]bool {
 
 // relevantPC keeps the assumptions connected to the goal through shared symbols (hub symbols that occur in a large
 // share of all assumptions do not connect). Dropping assumptions is always sound for a validity query.
-func relevantPC(pc []Term, goal Term, rounds int) []Term {
+func relevantPC(pc []Term, goal Term, rounds int, hubDiv int) []Term {
 	syms := make([]map[string]bool, len(pc))
 	freq := map[string]int{}
 	for i, a := range pc {
@@ -49,7 +49,7 @@ func relevantPC(pc []Term, goal Term, rounds int) []Term {
 	}
 	hub := map[string]bool{}
 	for s, n := range freq {
-		if n*5 > len(pc) && n > 12 {
+		if n >= 4 && n*hubDiv >= len(pc) {
 			hub[s] = true
 		}
 	}
@@ -234,12 +234,13 @@ func (u *Unit) discharge(o *Obligation, cfg *solverCfg, seq int) {
 			quickDone = true
 		}
 	}
-	if !quickDone && o.Expect == "unsat" && len(o.PC) > 30 {
+	if !quickDone && o.Expect == "unsat" && len(o.PC) > 12 {
 		// attempt 1: only the assumptions connected to the goal (sound: fewer hypotheses), short budget
-		for _, rounds := range []int{1, 3} {
-			rpc := relevantPC(o.PC, o.Goal, rounds)
+		for ai, att := range [][2]int{{1, 8}, {1, 5}, {2, 5}, {3, 4}} {
+			rounds := att[0]*10 + ai
+			rpc := relevantPC(o.PC, o.Goal, att[0], att[1])
 			if len(rpc) >= len(o.PC) {
-				break
+				continue
 			}
 			var rax []Term
 			gs := termSyms(o.Goal)
